@@ -874,6 +874,27 @@ def run(ctx):
     # shell programs first (they read as programs), API sequences interleaved so that both levels are reported
     unknown = [v for v in specv if not v.get("known")]
     specv = unknown[:3] + apiv[:2] + unknown[3:] + [v for v in specv if v.get("known")] + apiv[2:]
+    # differential part of the verdict: flat programs over every writer / attribute of the property, brush vs bash
+    from props import c09_bash
+    bprogs = c09_bash.gen_programs(ctx)
+    btexts, bbr, bba = c09_bash.run_all(ctx, bprogs)
+    bstat = {"programs": len(bprogs), "steps_compared": 0, "programs_equal_to_bash": 0, "by_family": {}, "known": {}}
+    bviol = []
+    for bp, bt, x, y in zip(bprogs, btexts, bbr, bba):
+        n, vs = c09_bash.compare(bp, x, y)
+        bstat["steps_compared"] += n
+        bstat["by_family"][bp["family"]] = bstat["by_family"].get(bp["family"], 0) + 1
+        if not vs:
+            bstat["programs_equal_to_bash"] += 1
+        for why, kn in vs:
+            v = {"input": {"script": bt.replace(c09_bash.PROBE + "\n", "")}, "why": "bash parity: " + why}
+            if kn:
+                v["known"] = kn
+                bstat["known"][kn] = bstat["known"].get(kn, 0) + 1
+            bviol.append(v)
+    bviol = dedup(bviol)
+    unknown_b = [v for v in bviol if not v.get("known")]
+    specv = unknown_b[:2] + specv + unknown_b[2:] + [v for v in bviol if v.get("known")]
     svb = bash_second_opinion(ctx, progs, rendered, impl, 150 if ctx.quick else 4000)
     # extraction cross-check
     idx = ctx.rng.sample(range(len(progs)), 24)
@@ -885,7 +906,7 @@ def run(ctx):
     if xbad or xbad2:
         raise core.CheckBroken("extracted runner and vm_compute disagree (sh %r api %r)" % (xbad[:1], xbad2[:1]))
     return {
-        "evaluations": len(api_cases) + len(progs),
+        "evaluations": len(api_cases) + len(progs) + len(bprogs),
         "distinct_nontrivial": len(nontriv) + len({repr(c) for c in api_cases[:nex]}),
         "rule": "API level: all op sequences up to length %d over a 31-op alphabet on ShellEnvironment/ShellVariable "
                 "(push/pop, update_or_add with 4 policies x 3 creation scopes, array-element update, add, unset, unset_index, "
@@ -902,6 +923,13 @@ def run(ctx):
         "model_mismatches": mism,
         "spec_violations": specv,
         "spec_vs_bash": svb,
+        "notes": "proof-backed (Coq model + theorems + correspondence): scope stack, lookup policies, locals, prefix assignments, "
+                 "export/child environment, readonly invariant, transforms of plain assignments (API and in-process shell level). "
+                 "differential only (brush vs /usr/bin/bash, declare -p after every step, part of the verdict): every writer of the "
+                 "property's list (=, +=, element writes, compound assignment, read, read -a, printf -v, printf -v 'n[k]', for, (( )), "
+                 "${n:=}, ${n[k]:=}, mapfile, getopts, prefix assignments, export/declare/readonly n=v, unset, unset 'n[k]') against "
+                 "every declared-but-unset typed variable (-a -A -i -l -u -c -x, combinations, global and function-local), attribute "
+                 "removal/re-declaration sequences, random flat programs: %s" % bstat,
     }
 
 
